@@ -202,13 +202,9 @@ harness("C08.e1.minmax.spec", "C08,C09", "vk_c08_minmax",
             "assert!(min::byte_byte(x, y) <= x && min::byte_byte(x, y) <= y && (min::byte_byte(x, y) == x || min::byte_byte(x, y) == y));\n"
             "assert!(max::byte_byte(x, y) >= x && max::byte_byte(x, y) >= y && (max::byte_byte(x, y) == x || max::byte_byte(x, y) == y));"),
         desc="minimum / maximum")
-harness("C08.e1.modulo.spec_small_ints", "C08,C09", "vk_c08_modulo",
-        ind("let ai: i16 = kani::any();\nlet bi: i16 = kani::any();\nkani::assume(ai != 0);\n"
-            "let r = modulo::num_num(ai as f64, bi as f64);\n"
-            "let m = (ai as i32).abs();\nlet e = ((bi as i32 % m) + m) % m;\n"
-            "assert!(r == e as f64); // remainder of second by first, always non-negative"),
-        level="bounded", bound="16-bit integer operands", budget=1500, tier="thorough",
-        desc="modulo of integers: non-negative remainder of the second by the first")
+# modulo::num_num (f64::rem_euclid -> fmod): CBMC's fmod model is imprecise (it reports 1 mod 2 != 1; the counterexample does not
+# replay on the real code), so no obligation is registered for it: undecided, see DESIGN.md
+
 harness("C08.e1.char_arith.spec", "C08,C09", "vk_c08_char_arith",
         ind("let c: char = kani::any();\nlet d: char = kani::any();\nlet n: i32 = kani::any();\n"
             "kani::assume(n > -2000000 && n < 2000000);\n"
